@@ -160,6 +160,13 @@ def projOp (net : Net) (a : Nat) : Op → Option LOp
   | .sendConnless addr d => if addr = a then some (.sendConnless d) else none
   | .tick => some .tick
 
+/-- misuse of the API that no single address can be blamed for: the call names a peer id that is
+not live (`self.peers[pid]` panics with "invalid pid") -/
+def invalidPid (net : Net) : Op → Bool
+  | .accept pid | .reject pid _ | .disconnect pid _ | .ignore pid | .send pid _ _ | .flush pid =>
+    (lookup net.peers pid).isNone
+  | _ => false
+
 /-- the hypothesis of C20 for one operation: `Net::connect` is not called for an address that has
 a live peer (nothing else can give an address a second peer) -/
 def opOk (net : Net) : Op → Bool
